@@ -84,12 +84,14 @@ def gen(rng, knobs):
         h.add(t)
         h.ops.append(["get", t["id"]])
         h.ops.append(["query", [{"ids": [t["id"]]}]])
+    for _ in range(rng.choice([0, 0, 1, 2])):
+        h.ops.insert(rng.randint(1, len(h.ops)), ["restart"])          # the relay restarts somewhere in the history
     return {"backend": backend, "ops": h.ops}
 
 
 def sample(case):
     return {"backend": case["backend"],
-            "ops": [oracles.brief(o[1]) if o[0] == "add" else [o[0], str(o[1])[:12]] for o in case["ops"]]}
+            "ops": [oracles.brief(o[1]) if o[0] == "add" else [o[0], str(o[1])[:12] if len(o) > 1 else ""] for o in case["ops"]]}
 
 
 def refclass(pre, E, t):
@@ -182,6 +184,7 @@ def check(obs, backend):
 def run(case, sim):
     w, obs = store.run_store(sim, case["backend"], case["ops"], full_gc=True)
     viol, nontrivial = check(obs, case["backend"])
+    viol += oracles.restart_changes(obs, case["backend"])
     seen, v2 = set(), []
     for v in viol:
         if v["sig"] not in seen:
